@@ -22,7 +22,7 @@ import sys
 import traceback
 from dataclasses import dataclass
 from datetime import datetime, timedelta, timezone
-from typing import Dict, List
+from typing import Dict, List, Optional
 
 sys.path.insert(0, os.path.join(os.environ.get("PYVC_REPO", "/repo"), "src"))
 
@@ -72,6 +72,25 @@ class Deep(betterproto.Message):
     r_d: List[float] = betterproto.double_field(10)
     dur: timedelta = betterproto.message_field(11)
     ts: datetime = betterproto.message_field(12)
+    rw_i64: List[Optional[int]] = betterproto.message_field(13, wraps=betterproto.TYPE_INT64)
+    rw_bytes: List[Optional[bytes]] = betterproto.message_field(14, wraps=betterproto.TYPE_BYTES)
+    rw_double: List[Optional[float]] = betterproto.message_field(15, wraps=betterproto.TYPE_DOUBLE)
+    rw_bool: List[Optional[bool]] = betterproto.message_field(16, wraps=betterproto.TYPE_BOOL)
+    w_u64: Optional[int] = betterproto.message_field(17, wraps=betterproto.TYPE_UINT64)
+
+
+@dataclass(eq=False, repr=False)
+class High(betterproto.Message):
+    """field numbers whose tags need 2..5 bytes, in every presence discipline"""
+    a32: int = betterproto.int32_field(32)
+    s47: str = betterproto.string_field(47)
+    p64: int = betterproto.sint64_field(64, group="pick")
+    p100: str = betterproto.string_field(100, group="pick")
+    o2048: Optional[int] = betterproto.int32_field(2048, optional=True)
+    r16384: List[int] = betterproto.int32_field(16384)
+    m40: "Leaf" = betterproto.message_field(40)
+    rs72: List[str] = betterproto.string_field(72)
+    z_max: int = betterproto.uint32_field(536870911)
 
 
 SCHEMA = {
@@ -81,7 +100,7 @@ SCHEMA = {
     "Mid": [("leaf", 1, "message", "", "Leaf"), ("name", 2, "string", "", None), ("pick", 3, "message", "", "Choice")],
     "Hollow": [],
 }
-CLASSES = {"Leaf": Leaf, "Choice": Choice, "Mid": Mid, "Hollow": Hollow, "Deep": Deep}
+CLASSES = {"Leaf": Leaf, "Choice": Choice, "Mid": Mid, "Hollow": Hollow, "Deep": Deep, "High": High}
 
 
 # ------------------------------------------------------------------------------------------------ reference classes
@@ -91,7 +110,7 @@ _REF = {}
 def ref(name):
     if not _REF:
         from google.protobuf import descriptor_pb2 as dpb, descriptor_pool, message_factory
-        from google.protobuf import duration_pb2, timestamp_pb2  # noqa: F401
+        from google.protobuf import duration_pb2, timestamp_pb2, wrappers_pb2  # noqa: F401
         FD = dpb.FieldDescriptorProto
         ty = {"int32": FD.TYPE_INT32, "string": FD.TYPE_STRING, "bool": FD.TYPE_BOOL, "message": FD.TYPE_MESSAGE,
               "float": FD.TYPE_FLOAT, "double": FD.TYPE_DOUBLE}
@@ -99,6 +118,7 @@ def ref(name):
         fdp = dpb.FileDescriptorProto(name="standin_deep.proto", package=pkg, syntax="proto3")
         fdp.dependency.append("google/protobuf/duration.proto")
         fdp.dependency.append("google/protobuf/timestamp.proto")
+        fdp.dependency.append("google/protobuf/wrappers.proto")
         for mname, fields in SCHEMA.items():
             mp = fdp.message_type.add(name=mname)
             groups = {}
@@ -134,12 +154,27 @@ def ref(name):
         mp.field.add(name="r_d", number=10, type=FD.TYPE_DOUBLE, label=FD.LABEL_REPEATED)
         mp.field.add(name="dur", number=11, type=FD.TYPE_MESSAGE, label=FD.LABEL_OPTIONAL, type_name=".google.protobuf.Duration")
         mp.field.add(name="ts", number=12, type=FD.TYPE_MESSAGE, label=FD.LABEL_OPTIONAL, type_name=".google.protobuf.Timestamp")
+        for nm, num, w in (("rw_i64", 13, "Int64Value"), ("rw_bytes", 14, "BytesValue"), ("rw_double", 15, "DoubleValue"), ("rw_bool", 16, "BoolValue")):
+            mp.field.add(name=nm, number=num, type=FD.TYPE_MESSAGE, label=FD.LABEL_REPEATED, type_name=".google.protobuf." + w)
+        mp.field.add(name="w_u64", number=17, type=FD.TYPE_MESSAGE, label=FD.LABEL_OPTIONAL, type_name=".google.protobuf.UInt64Value")
+        hp = fdp.message_type.add(name="High")
+        hp.oneof_decl.add(name="pick")
+        hp.oneof_decl.add(name="_o2048")
+        hp.field.add(name="a32", number=32, type=FD.TYPE_INT32, label=FD.LABEL_OPTIONAL)
+        hp.field.add(name="s47", number=47, type=FD.TYPE_STRING, label=FD.LABEL_OPTIONAL)
+        hp.field.add(name="p64", number=64, type=FD.TYPE_SINT64, label=FD.LABEL_OPTIONAL, oneof_index=0)
+        hp.field.add(name="p100", number=100, type=FD.TYPE_STRING, label=FD.LABEL_OPTIONAL, oneof_index=0)
+        hp.field.add(name="o2048", number=2048, type=FD.TYPE_INT32, label=FD.LABEL_OPTIONAL, oneof_index=1, proto3_optional=True)
+        hp.field.add(name="r16384", number=16384, type=FD.TYPE_INT32, label=FD.LABEL_REPEATED)
+        hp.field.add(name="m40", number=40, type=FD.TYPE_MESSAGE, label=FD.LABEL_OPTIONAL, type_name=f".{pkg}.Leaf")
+        hp.field.add(name="rs72", number=72, type=FD.TYPE_STRING, label=FD.LABEL_REPEATED)
+        hp.field.add(name="z_max", number=536870911, type=FD.TYPE_UINT32, label=FD.LABEL_OPTIONAL)
         pool = descriptor_pool.Default()
         try:
             pool.Add(fdp)
         except Exception:
             pass
-        for n in list(SCHEMA) + ["Deep"]:
+        for n in list(SCHEMA) + ["Deep", "High"]:
             _REF[n] = message_factory.GetMessageClass(pool.FindMessageTypeByName(f"{pkg}.{n}"))
     return _REF[name]
 
@@ -245,8 +280,15 @@ def to_ref(m):
             for x in v:
                 if isinstance(x, betterproto.Message):
                     getattr(r, name).add().CopyFrom(to_ref(x))
+                elif meta.wraps:
+                    getattr(r, name).add().value = x
                 else:
                     getattr(r, name).append(x)
+        elif meta.wraps:
+            if v is not None:
+                getattr(r, name).value = v
+        elif v is None:
+            continue
         elif isinstance(v, betterproto.Message):
             if betterproto.serialized_on_wire(v) or meta.group:
                 getattr(r, name).CopyFrom(to_ref(v))
@@ -321,6 +363,15 @@ def instances(rnd, n):
         out.append((f"Deep(dur=timedelta(microseconds={us}))", lambda us=us: Deep(dur=timedelta(microseconds=us))))
     for label, dt in TIMES:
         out.append((f"Deep(ts={label})", lambda dt=dt: Deep(ts=dt)))
+    out.append(("Deep(rw_i64=[0, 2**63-1, -2**63, 7])", lambda: Deep(rw_i64=[0, 2**63 - 1, -2**63, 7])))
+    out.append(("Deep(rw_i64=[0])", lambda: Deep(rw_i64=[0])))
+    out.append(("Deep(rw_bytes=[b'', b'\\x00\\xff'])", lambda: Deep(rw_bytes=[b"", b"\x00\xff"])))
+    out.append(("Deep(rw_double=[0.0, 1.5, inf, -inf])", lambda: Deep(rw_double=[0.0, 1.5, float("inf"), float("-inf")])))
+    out.append(("Deep(rw_double=[nan])", lambda: Deep(rw_double=[float("nan")])))
+    out.append(("Deep(rw_bool=[False, True, False])", lambda: Deep(rw_bool=[False, True, False])))
+    out.append(("Deep(w_u64=0)", lambda: Deep(w_u64=0)))
+    out.append(("Deep(w_u64=2**64-1)", lambda: Deep(w_u64=2**64 - 1)))
+    out.append(("Deep().parse(rw_i64 = [default element, 7])", lambda: Deep().parse(bytes.fromhex("6a006a020807"))))
     base = list(out)
     while len(out) < n:
         parts = [rnd.choice(base) for _ in range(rnd.randint(2, 4))]
@@ -371,7 +422,7 @@ def rel_C01(col, how, make):
     b = guard(col, "encode", how, lambda: bytes(m))
     if b is None:
         return
-    back = guard(col, "decode", how, lambda: Deep().parse(b))
+    back = guard(col, "decode", how, lambda: type(m)().parse(b))
     if back is None:
         return
     if not same(back, make()):
@@ -508,6 +559,54 @@ def rel_C06(col, how, make):
         col.fail("reads-change-to_dict", how, f"{d0} -> {d1}")
 
 
+def defaults_check(col):
+    """C06: an unset field reads as the default of its declared kind (derived here from the dataclass annotation, not
+    from the library's own default table): [] for repeated, {} for maps, None for proto3-optional and wrapper fields,
+    the zero value for scalars, a message that is not present for message fields - and reading it creates no presence"""
+    import typing
+    zero = {int: 0, str: "", bool: False, bytes: b"", float: 0.0}
+    for cls in (Deep, High, Mid, Choice, Leaf):
+        hints = typing.get_type_hints(cls, globals())
+        for name, hint in hints.items():
+            if name.startswith("_"):
+                continue
+            how = f"{cls.__name__}().{name}"
+            col.cases += 1
+            col.distinct.add(how)
+            m = cls()
+            meta = m._betterproto.meta_by_field_name.get(name)
+            if meta is None:
+                continue
+            try:
+                got = getattr(m, name)
+            except AttributeError:
+                if meta.group:
+                    continue            # an unset oneof member is not readable: that is C07's business
+                col.fail("unset-field-not-readable", how, "AttributeError")
+                continue
+            origin = typing.get_origin(hint)
+            if origin in (list, typing.List):
+                exp, ok = [], (got == [] and isinstance(got, list))
+            elif origin in (dict, typing.Dict):
+                exp, ok = {}, (got == {} and isinstance(got, dict))
+            elif origin is typing.Union:
+                exp, ok = None, got is None
+            elif hint in zero:
+                exp, ok = zero[hint], (got == zero[hint] and type(got) is type(zero[hint]))
+            elif isinstance(hint, type) and issubclass(hint, betterproto.Message):
+                exp, ok = "an absent message", (isinstance(got, hint) and not betterproto.serialized_on_wire(got) and bytes(got) == b"")
+            elif hint is timedelta:
+                exp, ok = timedelta(0), got == timedelta(0)
+            elif hint is datetime:
+                exp, ok = EPOCH, got == EPOCH
+            else:
+                continue
+            if not ok:
+                col.fail("unset-field-does-not-read-as-its-default", how, f"got {got!r}, expected {exp!r}")
+            if bytes(m) != b"":
+                col.fail("reading-an-unset-field-creates-presence", how, bytes(m).hex())
+
+
 def assign_histories(col):
     """C06: assigning inside a sub-message makes it present - also when the value assigned is the default, also when
     the slot was read before (reads materialise defaults lazily); the reference performs the same assignments"""
@@ -546,6 +645,29 @@ def assign_histories(col):
                 top = getattr(m, path[0])
                 if not betterproto.serialized_on_wire(top):
                     col.fail("assigned-inside-but-not-present:%d-level" % len(path), how, f"serialized_on_wire(m.{path[0]}) is False")
+
+
+def eq_histories(col):
+    """C14: == is an observer also when the operands differ: neither operand changes"""
+    pool = choices() + [("Choice(count=7, then leaf)", lambda: Choice(leaf=Leaf(n=2)))]
+    tops = [("Deep()", lambda: Deep()), ("Deep(mid=Mid(name='a'))", lambda: Deep(mid=Mid(name="a"))), ("Deep(one=Choice(leaf=Leaf(n=1)))", lambda: Deep(one=Choice(leaf=Leaf(n=1)))),
+            ("Deep(mid=Mid(leaf=Leaf(n=3)))", lambda: Deep(mid=Mid(leaf=Leaf(n=3)))), ("Deep(hollow=Hollow())", lambda: Deep(hollow=Hollow())), ("Deep(dur=1s)", lambda: Deep(dur=timedelta(seconds=1)))]
+    for group in (pool, tops):
+        for ta, fa in group:
+            for tb, fb in group:
+                how = f"({ta}) == ({tb})"
+                col.cases += 1
+                col.distinct.add(how)
+                a, b = fa(), fb()
+                va, vb, ba, bb = json.dumps(view(a), sort_keys=True, default=str), json.dumps(view(b), sort_keys=True, default=str), bytes(a), bytes(b)
+                if guard(col, "eq", how, lambda: (a == b, True)[1]) is None:
+                    continue
+                if guard(col, "eq-nested", how, lambda: ((a.mid == b.mid, a.one == b.one, True)[2] if isinstance(a, Deep) else True)) is None:
+                    continue
+                if (bytes(a), bytes(b)) != (ba, bb):
+                    col.fail("comparison-changes-the-encoding-of-an-operand", how, f"{ba.hex()},{bb.hex()} -> {bytes(a).hex()},{bytes(b).hex()}")
+                elif (json.dumps(view(a), sort_keys=True, default=str), json.dumps(view(b), sort_keys=True, default=str)) != (va, vb):
+                    col.fail("comparison-changes-observable-state-of-an-operand", how, f"{va} / {vb} -> {view(a)} / {view(b)}")
 
 
 def copy_histories(col):
@@ -683,33 +805,23 @@ def rel_C04_more(col, how, make):
 
 
 def rel_merge(col, rnd, pairs):
-    """parse() into a message that already holds values merges like the reference's MergeFromString"""
+    """decoding in two steps into the same message equals decoding the concatenation (for the protobuf wire format
+    concatenation IS merging); in particular the unknown fields of both inputs are kept"""
     for (ha, ma), (hb, mb) in pairs:
-        how = f"a = {ha}; a.parse(bytes({hb}))"
+        how = f"x = bytes({ha}); y = bytes({hb}); Deep().parse(x).parse(y) vs Deep().parse(x + y)"
         col.cases += 1
         col.distinct.add(how)
-        a, b = ma(), mb()
-        if nested_unknown(a) or nested_unknown(b) or a._unknown_fields or b._unknown_fields:
+        x, y = guard(col, "encode", how, lambda: bytes(ma())), guard(col, "encode", how, lambda: bytes(mb()))
+        if x is None or y is None:
             continue
-        try:
-            ra, rb = to_ref(a), to_ref(b)
-        except Exception:
+        two = guard(col, "two-step-decode", how, lambda: Deep().parse(x).parse(y))
+        one = guard(col, "decode-concatenation", how, lambda: Deep().parse(x + y))
+        if two is None or one is None:
             continue
-        wire = bytes(b)
-        got = guard(col, "merge-parse", how, lambda: a.parse(wire))
-        if got is None:
-            continue
-        ra.MergeFromString(rb.SerializeToString(deterministic=True))
-        exp = ra.SerializeToString(deterministic=True)
-        r2 = ref("Deep")()
-        try:
-            r2.ParseFromString(bytes(a))
-        except Exception as e:
-            col.fail("merge-result-not-decodable", how, str(e))
-            continue
-        floats_nan = any(isinstance(x, float) and x != x for x in list(a.m_f.values()) + list(a.m_d.values()) + list(a.r_d))
-        if r2.SerializeToString(deterministic=True) != exp and not floats_nan:
-            col.fail("merge-differs-from-reference", how, f"ours {bytes(a).hex()} reference {exp.hex()}")
+        if bytes(two) != bytes(one):
+            col.fail("two-step-decode-differs-from-decoding-the-concatenation", how, f"{bytes(two).hex()} vs {bytes(one).hex()}")
+        elif not same(two, one):
+            col.fail("two-step-decode-differs-in-observable-state", how, f"{view(two)} vs {view(one)}")
 
 
 def rel_C14(col, how, make):
@@ -771,6 +883,54 @@ def rel_C15(col, rnd):
                 col.fail("duration-json-not-canonical", how, f"{out!r}: {e}")
 
 
+def high_numbers(col, prop):
+    """field numbers whose tags take 2..5 bytes (32, 40, 47, 64, 72, 100, 2048, 16384, 2**29-1), every presence discipline"""
+    insts = [("High()", lambda: High()), ("High(a32=-7)", lambda: High(a32=-7)), ("High(s47='x')", lambda: High(s47="x")), ("High(p64=0)", lambda: High(p64=0)),
+             ("High(p64=-64)", lambda: High(p64=-64)), ("High(p100='')", lambda: High(p100="")), ("High(p100='q')", lambda: High(p100="q")),
+             ("High(o2048=0)", lambda: High(o2048=0)), ("High(o2048=5)", lambda: High(o2048=5)), ("High(r16384=[1, -1, 300])", lambda: High(r16384=[1, -1, 300])),
+             ("High(m40=Leaf())", lambda: High(m40=Leaf())), ("High(m40=Leaf(n=9))", lambda: High(m40=Leaf(n=9))), ("High(rs72=['', 'a'])", lambda: High(rs72=["", "a"])),
+             ("High(z_max=1)", lambda: High(z_max=1)), ("High(all)", lambda: High(a32=1, s47="s", p100="p", o2048=0, r16384=[7], m40=Leaf(n=1), rs72=[""], z_max=2**32 - 1))]
+    for how, make in insts:
+        col.cases += 1
+        col.distinct.add(how)
+        m = make()
+        b = guard(col, "encode", how, lambda: bytes(m))
+        if b is None:
+            continue
+        try:
+            rb = to_ref(m).SerializeToString(deterministic=True)
+        except Exception as e:
+            col.fail("harness:to_ref", how, str(e))
+            continue
+        r2 = ref("High")()
+        try:
+            r2.ParseFromString(b)
+            nb = r2.SerializeToString(deterministic=True)      # the reference orders fields by number, betterproto by declaration
+        except Exception as e:
+            col.fail("high-field-number-bytes-rejected-by-the-reference", how, f"{b.hex()}: {e}")
+            continue
+        if nb != rb:
+            col.fail("high-field-number-encoded-differently-from-the-reference", how, f"ours {b.hex()} (as read by the reference: {nb.hex()}) reference {rb.hex()}")
+        back = guard(col, "decode", how, lambda: High().parse(rb))
+        if back is not None and not same(back, make()):
+            col.fail("high-field-number-decoded-differently", how, f"{view(back)} expected {view(make())}")
+        n = guard(col, "len", how, lambda: len(m))
+        if n is not None and n != len(b):
+            col.fail("high-field-number-len-differs", how, f"len(m)={n} len(bytes(m))={len(b)}")
+        st = io.BytesIO()
+        guard(col, "dump-delimited", how, lambda: (make().dump(st, betterproto.SIZE_DELIMITED), make().dump(st, betterproto.SIZE_DELIMITED)))
+        st.seek(0)
+        for k in range(2):
+            got = guard(col, "load-delimited", how, lambda: High().load(st, betterproto.SIZE_DELIMITED))
+            if got is not None and not same(got, make()):
+                col.fail("high-field-number-delimited-roundtrip", how, f"message {k}: {view(got)}")
+        if prop in ("C08", "C17") and b:
+            # the same bytes read by a schema that knows none of these fields
+            h = guard(col, "decode-as-unknown", how, lambda: Hollow().parse(b))
+            if h is not None and bytes(h) != b:
+                col.fail("high-field-number-unknown-bytes-changed", how, f"{b.hex()} -> {bytes(h).hex()}")
+
+
 def rel_C15_ts(col):
     from google.protobuf import timestamp_pb2
     for label, dt in TIMES:
@@ -821,8 +981,8 @@ def main(argv=None):
         rel_C15(col, rnd)
         rel_C15_ts(col)
     else:
-        rel = RELS[a.prop]
-        for how, make in instances(rnd, a.n):
+        rel = RELS.get(a.prop)
+        for how, make in (instances(rnd, a.n) if rel is not None else []):
             col.cases += 1
             col.distinct.add(how)
             try:
@@ -837,15 +997,25 @@ def main(argv=None):
                     rel_C04_more(col, how, make)
                 except Exception as e:
                     col.fail("harness:" + type(e).__name__, how, traceback.format_exc()[-400:])
-        if a.prop in ("C01", "C02"):
+        if a.prop in ("C01", "C02", "C08"):
             inst = instances(rnd, a.n)
-            base = inst[:120]
+            base = inst[:140]
             pairs = [(rnd.choice(base), rnd.choice(base)) for _ in range(a.n)]
+            carriers = [("Deep().parse(unknown varint 30)", lambda: Deep().parse(bytes.fromhex("f00107"))),
+                        ("Deep().parse(unknown bytes 31)", lambda: Deep().parse(bytes.fromhex("fa01026869"))),
+                        ("Deep().parse(unknown fixed32 33 + known r_d)", lambda: Deep().parse(bytes.fromhex("8d020100000052080000000000000440"))),
+                        ("Deep(mid=Mid(name='n')) + unknown", lambda: Deep().parse(bytes.fromhex("4a0312016ef00109")))]
+            pairs += [(x, y) for x in carriers for y in carriers]
             rel_merge(col, rnd, pairs)
         if a.prop == "C06":
             assign_histories(col)
+            defaults_check(col)
         if a.prop in ("C07", "C14"):
             copy_histories(col)
+        if a.prop == "C14":
+            eq_histories(col)
+        if a.prop in ("C01", "C02", "C08", "C09", "C10", "C17"):
+            high_numbers(col, a.prop)
     if not col.samples:
         col.samples.append({"instance": "Duration JSON strings" if a.prop == "C15" else "Deep()", "cases": col.cases})
     json.dump({"property": a.prop, "cases": col.cases, "distinct_nontrivial": len(col.distinct) - 1 if a.prop != "C15" else len(col.distinct),
